@@ -323,7 +323,27 @@ pub fn gen_macros<R: Src>(r: &mut R, cfg: &GenCfg) -> Program {
             });
          }
          let has_wrap = prog.macros.iter().any(|m| m.name == "hopw");
+         // the same two-hop macro with a direct alternative: the local is bound in one disjunct only
+         let has_d = r.chance(60);
+         if has_d {
+            prog.macros.push(MacroDef {
+               name: "hopd".into(),
+               params: hop.params.clone(),
+               body: if r.chance(50) {
+                  vec![BodyItem::Disj(vec![alt("$p0", "$p1"), hop.body.clone()])]
+               } else {
+                  vec![BodyItem::Disj(vec![hop.body.clone(), alt("$p0", "$p1")])]
+               },
+               head: vec![],
+               is_head: false,
+            });
+         }
          for _ in 0..r.range(2, 4) {
+            let nm = if has_d && r.chance(45) { "hopd" } else { "hopm" };
+            let call = |a: &str, b: &str| BodyItem::MacroCall {
+               name: nm.into(),
+               args: vec![MacroArg { is_ident: true, ident: a.into(), expr: None }, MacroArg { is_ident: true, ident: b.into(), expr: None }],
+            };
             let snapshot = prog.clone();
             let mut ctx = RuleCtx::new(r, &snapshot, &cfg);
             let mut body = vec![];
